@@ -27,6 +27,7 @@ type Effect struct {
 	Instr    ssa.CallInstruction
 	Args     []*term.Term // non-context arguments (bank: from, to, coins ...)
 	Method   string
+	KeyVal   ssa.Value // store effects: the key argument (nil for iterators)
 }
 
 func (e *Effect) String() string {
@@ -237,7 +238,7 @@ func (t *Table) bytesConst(v ssa.Value) (string, bool) {
 
 // storeEffect resolves the store value to (module, key field, prefix).
 func (t *Table) storeEffect(f *ssa.Function, call ssa.CallInstruction, kind string, store ssa.Value, key ssa.Value) *Effect {
-	e := &Effect{Kind: kind, Fn: f, Instr: call, Prefix: "?", Module: "?", KeyField: "?"}
+	e := &Effect{Kind: kind, Fn: f, Instr: call, Prefix: "?", Module: "?", KeyField: "?", KeyVal: key}
 	v := store
 	for i := 0; i < 4; i++ {
 		switch x := v.(type) {
